@@ -129,7 +129,9 @@ func runC02(r resIface, c *c02case, ks *rdbgen.KeySpec, rng *prng.R, entries []*
 	var expireAt uint64
 	switch c.Expiry {
 	case "future":
-		days := rng.Pick(rng.Range(3, 40), rng.Range(3, 40), 60, 400, 7300) // remaining ms below and above 2^31 and 2^32, up to 20 years
+		// remaining ms below and above 2^31 and 2^32, up to 20 years - and "practically never": 410 years (beyond what a
+		// nanosecond Duration can hold) and roughly the year 9999 sentinel
+		days := rng.Pick(rng.Range(3, 40), rng.Range(3, 40), 60, 400, 7300, 150000, 2913000)
 		expireAt = uint64(nowMs + int64(shift/time.Millisecond) + int64(days)*86400000 + int64(rng.Intn(1000)))
 	case "past":
 		expireAt = uint64(nowMs + int64(shift/time.Millisecond) - int64(rng.Range(1, 40))*86400000)
